@@ -300,6 +300,30 @@ def run(ctx):
         if gap > Fraction(1, 10 ** 6) and (int(lt), int(gt), int(eq)) != tuple(o[:3]):
             dis(dict(part='comparison', model=o[:3], **w))
 
+    # ---- a timestamp moved in place (+=, -=) after it has been rendered once: its rendering and its comparisons are those of a
+    # fresh timestamp holding the same value (a cached text must not outlive the value it was made from)
+    ninplace = 0
+    for _ in range(1500 if ctx.thorough else 300):
+        v = round(rng.uniform(LO, HI), 3) + rng.choice([0.0, 0.0004, 0.00049, 0.0005, 0.0009])
+        t = timestamp(v)
+        steps = []
+        for _ in range(rng.randrange(1, 6)):
+            str(t); repr(t); t.utc                      # fill whatever caches there are
+            d = rng.choice([0.0002, 0.0006, -0.0004, 0.00011, 0.0009, -0.0009, 0.001, 0.0015, 2.0, -61.0, 1e-6])
+            steps.append(d)
+            if rng.random() < 0.5:
+                t += d
+            else:
+                t -= -d
+            ninplace += 1
+            fresh = timestamp(t.value)
+            w = dict(start=repr(v), steps=steps, value=repr(t.value), rendering=str(t), fresh_rendering=str(fresh))
+            if str(t) != str(fresh) or t.utc != fresh.utc:
+                bad(w, 'after an in-place step a timestamp renders differently from a fresh timestamp of the same value'); break
+            if (t != fresh) or (t < fresh) or (t > fresh):
+                bad(w, 'after an in-place step a timestamp does not compare equal to a fresh timestamp of the same value'); break
+    cov['in_place_steps'] = ninplace
+
     # ---- durations
     durs = [(0, 0), (0, 1), (0, 999), (0, 1000), (0, 1001), (1, 0), (1, 1000), (1, 1), (59, 999999), (60, 0), (3723, 4000), (31557600, 0),
             (31557600 * 3 + 604800 * 4 + 86400 * 6 + 3600 * 18 + 7, 16300), (1, 15700), (0, 1001), (86400, 500000), (604800, 250)]
